@@ -12,6 +12,8 @@ from __future__ import annotations
 import xml.etree.ElementTree as ET
 from typing import Optional
 
+from hypothesis import strategies as st
+
 from vlib.run import Result, Sub
 from vlib import c17_pool as pool
 from vlib.c17_gen import analyse, hostile_doc, render
@@ -30,7 +32,7 @@ RULE = (
     "malformed ones (numbers, transforms, viewBox, path data, points, style, url(), href), and a DOCTYPE with internal "
     "entities used in attributes/content (plain, nested, markup, 'laughs' of 1e3/1e6/1e9, declaration loops) and "
     "external SYSTEM/PUBLIC entities, external parameter entities and external DTD subsets that point at canary files. "
-    "Each document is converted in a watchdogged subprocess; allowed outcomes are a returned document that satisfies the "
+    "Each document is converted in a watchdogged subprocess, by SVG.fromstring(x).topicosvg() or (1 in 3) by the validate-then-convert idiom svg.checkpicosvg(); svg.topicosvg() on one object; allowed outcomes are a returned document that satisfies the "
     "picosvg grammar predicate output_ok() or any Python exception; violations are a timeout (10 s of CPU time, or 60 s of wall clock "
     "twice in a row, for an expanded size E <= 200 elements, E computed by an own use/clip expansion; documents with "
     "E > 200 are not run), MemoryError under "
@@ -149,7 +151,9 @@ def check_doc(case) -> Result:
         r.rejected = "expanded-size>200"
         return r
     r.nontrivial = bool(A.cycles) or A.has_entity_ref or bool(A.malformed)
-    rep = pool.run(doc)
+    route = case.get("route", "topicosvg")
+    cls.append("route:" + route)
+    rep = pool.run(doc, route)
     # Process-level symptoms that something outside the conversion could also produce (another
     # process reading the canary files, an external SIGKILL/SIGTERM, a stalled machine) are only
     # reported when an immediate second run of the same document shows them again.
@@ -159,7 +163,7 @@ def check_doc(case) -> Result:
         or (rep["status"] == "died" and rep.get("returncode") in (-9, -15, None))
     )
     if external:
-        rep2 = pool.run(doc)
+        rep2 = pool.run(doc, route)
         same = rep2["status"] == rep["status"] and bool(rep2.get("opened")) == bool(rep.get("opened"))
         if not same:
             cls.append("unreproduced:" + ("canary-opened" if rep.get("opened") else rep["status"]))
@@ -215,7 +219,7 @@ SUBCHECKS = {
     "doc": Sub(
         "doc",
         check_doc,
-        strategy=lambda ctx: hostile_doc(),
+        strategy=lambda ctx: st.tuples(hostile_doc(), st.sampled_from(["topicosvg", "topicosvg", "check-then-convert"])).map(lambda t: dict(t[0], route=t[1])),
         examples={"quick": 380, "thorough": 1500},
         describe=_describe,
         shrink_s=45.0,
